@@ -312,13 +312,17 @@ func GenProgram(r *Rand, o ProgOpts) []Op {
 				m = r.Range(0, 2)
 			}
 			for j := 0; j < m; j++ {
-				switch r.Pick(6, 2, 3) {
+				switch r.Pick(12, 4, 6, 1) {
 				case 0:
 					t.Sub = append(t.Sub, small(put()))
 				case 1:
 					t.Sub = append(t.Sub, Op{K: "del", Key: o.Keys.Pick(r)})
-				default:
+				case 2:
 					t.Sub = append(t.Sub, Op{K: "get", Key: o.Keys.Pick(r)})
+				default:
+					// the transaction looks at its own state through an iterator
+					// (what it yields is C05's subject) and goes on
+					t.Sub = append(t.Sub, Op{K: "scan"})
 				}
 			}
 			ops = append(ops, t)
